@@ -257,7 +257,7 @@ package keeper
 //@   loop 1 invariant ItHas[iter] == KVhas[k.skey] && ItVal[iter] == KVval[k.skey] && ItPrefix[iter] == apKey(id)
 //@   loop 1 invariant ItPos[iter] == len(payments) && len(payments) <= enumLen(KVhas[k.skey], apKey(id))
 //@   loop 1 invariant forall j: int :: 0 <= j && j < len(payments) ==> payments[j] == recAt(KVhas[k.skey], KVval[k.skey], id, j)
-//@   loop 1 invariant cap(payments) > 0 ==> fresh(payments)
+//@   loop 1 invariant cap(payments) > 0 ==> fresh(payments) && freshloop(payments)
 
 //@ func (*keeper).accountOpenPayments
 //@   uses openCountMono, openCountStrict
@@ -279,7 +279,8 @@ package keeper
 //@   loop 1 invariant len(payments) == openCount(KVhas[k.skey], KVval[k.skey], id, iter) && len(payments) <= iter && cap(payments) == len(allPayments)
 //@   loop 1 invariant forall i: int :: 0 <= i && i < iter && recAt(KVhas[k.skey], KVval[k.skey], id, i).State == types.PaymentOpen ==>
 //@               payments[openCount(KVhas[k.skey], KVval[k.skey], id, i)] == recAt(KVhas[k.skey], KVval[k.skey], id, i)
-//@   loop 1 invariant fresh(payments) && root(payments) != root(allPayments)
+//@   loop 1 modifies payments[**]
+//@   loop 1 invariant fresh(payments) && root(payments) != root(allPayments) && arr(payments) == atloop(arr(payments))
 //@   loop 1 invariant forall j: int :: 0 <= j && j < len(allPayments) ==> allPayments[j] == recAt(KVhas[k.skey], KVval[k.skey], id, j)
 
 // ---- keeper-level views and invariants -------------------------------------
@@ -398,10 +399,13 @@ package keeper
 //@   loop 2 invariant stable(old(KVhas)[k.skey], old(KVval)[k.skey], KVhas[k.skey], KVval[k.skey])
 //@   loop 2 invariant KVval[k.skey][aKey(id)] == encode(account)
 //@   loop 2 invariant forall m: int :: 0 <= m && m < iter ==> KVval[k.skey][keyOf(payments[m])] == encode(payments[m])
+//@   loop 3 modifies payments[*], ghost KVhas, ghost KVval, ghost G, ghost Mod, ghost Bank, ghost It_all
 //@   loop 3 invariant 0 <= iter && iter <= len(payments) && KVhas[k.skey][aKey(id)]
 //@   loop 3 invariant stable(old(KVhas)[k.skey], old(KVval)[k.skey], KVhas[k.skey], KVval[k.skey])
 //@   loop 3 invariant KVval[k.skey][aKey(id)] == encode(account)
 //@   loop 3 invariant forall m: int :: iter <= m && m < len(payments) ==> payments[m].Balance.Amount >= 0
+//@   loop 3 invariant forall m: int :: iter <= m && m < len(payments) ==> old(KVhas)[k.skey][keyOf(payments[m])]
+//@                && decode(types.Payment, old(KVval)[k.skey][keyOf(payments[m])]).State == types.PaymentOpen
 //@   loop 4 invariant KVhas[k.skey][aKey(id)] && KVval[k.skey][aKey(id)] == encode(account)
 //@   loop 4 invariant stable(old(KVhas)[k.skey], old(KVval)[k.skey], KVhas[k.skey], KVval[k.skey])
 //@   loop 5 invariant KVhas[k.skey][aKey(id)] && KVval[k.skey][aKey(id)] == encode(account)
